@@ -598,6 +598,66 @@ def check_bson_size(chk, tier):
                          {'function': fn['q']}, fn['q'])
     chk.require(n >= 2, 'R07.bson.size: closers not found')
 
+def check_cbor_tag_flags(chk, tier):
+    """A CBOR tag applies to the one data item that follows it."""
+    from .. import cfg as C, guards as G
+    rid = 'R07.cbor.tags'
+    chk.rule(rid, 'CBOR tag flags are consumed: wherever the parser acts on a pending tag (`if (other_tags_[T])`), every path from the true '
+                  'outcome to a normal return clears that flag (error returns excepted); a flag left set makes the next, untagged item of '
+                  'the same major type be decoded with the previous item\'s tag', floor=8)
+    facts = F.load(['cbor'], tier)
+    if 'cbor' not in chk.units: chk.units.append('cbor')
+    def tagref(e):
+        for y in A.walk(e):
+            if y.get('k') == 'CXXOperatorCallExpr' and y.get('oop') == '[]' and y.get('args'):
+                o = A.strip(y['args'][0], casts=True)
+                if o is not None and o.get('k') == 'MemberExpr' and o.get('n', '').endswith('tags_'):
+                    return U.enum_const_name(y['args'][1]) or A.text(y['args'][1])
+        return None
+    n = 0
+    for fn in U.one_per_inst([f for f in U.functions(facts, cls='basic_cbor_parser') if f.get('body') is not None]):
+        g = None
+        for x in A.walk_no_lambda(fn['body']):
+            if x.get('k') == 'IfStmt' and tagref(x.get('cond')) is not None: g = C.CFG(fn['body']); break
+        if g is None: continue
+        chk.analysed(fn)
+        errs = [x for x in g.rpo if x.kind == 'stmt' and isinstance(x.ast, dict) and (U.assigned_member(x.ast) or (None,))[0] == 'ec']
+        # `if (ec) return;` after a call that reports through ec: the true outcome is an error path
+        errs += [x for x in g.rpo if x.kind == 'edge' and x.label is True and isinstance(x.ast, dict) and G.comparison(x.ast) is None and
+                 any(y.get('k') == 'DeclRefExpr' and y.get('n') == 'ec' for y in A.walk(x.ast))]
+        k = 0
+        for nd in g.rpo:
+            if nd.kind != 'cond' or not isinstance(nd.ast, dict): continue
+            t = tagref(nd.ast)
+            if t is None: continue
+            k += 1; n += 1
+            clears = [x for x in g.rpo if x.kind == 'stmt' and isinstance(x.ast, dict) and tagref(x.ast) == t and
+                      any(y.get('k') == 'CXXOperatorCallExpr' and y.get('oop') == '=' and A.const((y.get('args') or [None, None])[1]) == 0 for y in A.walk(x.ast))]
+            te = [e for e in nd.succ if e.label is True]
+            site = U.site(fn, 'pending %s test #%d' % (t, k))
+            if te and not g.can_reach(te[0], [g.exit_return], avoid=clears + errs): chk.ok(rid, site, {'function': fn['q'], 'line': nd.line})
+            else:
+                chk.fail(rid, site, fn['file'], nd.line, '%s acts on the pending tag flag %s (line %s) and can return normally without clearing it: the next item without a tag '
+                         'is decoded as if it carried this one' % (fn['n'], t, nd.line), None, fn['q'])
+        # the item dispatcher (the function that tests one flag for several major types) consumes the tag of every item: whatever the
+        # major type, tested or not, no normal return leaves the flag set
+        tests = {}
+        for nd in g.rpo:
+            if nd.kind == 'cond' and isinstance(nd.ast, dict) and tagref(nd.ast) is not None: tests[tagref(nd.ast)] = tests.get(tagref(nd.ast), 0) + 1
+        for t, cnt in sorted(tests.items()):
+            if cnt < 3: continue
+            n += 1
+            clears = [x for x in g.rpo if x.kind == 'stmt' and isinstance(x.ast, dict) and tagref(x.ast) == t and
+                      any(y.get('k') == 'CXXOperatorCallExpr' and y.get('oop') == '=' and A.const((y.get('args') or [None, None])[1]) == 0 for y in A.walk(x.ast))]
+            seen_ = g.reachable_from(g.entry, avoid=clears + errs)
+            leaks = [p_ for p_ in g.exit_return.pred if p_.id in seen_]
+            site = U.site(fn, 'dispatcher consumes %s' % t)
+            if not leaks: chk.ok(rid, site, {'function': fn['q'], 'tests': cnt, 'clears': len(clears)})
+            else:
+                chk.fail(rid, site, fn['file'], leaks[0].line or fn['l'], '%s dispatches on the pending tag flag %s in %d places but can return normally (line %s) without clearing it: '
+                         'an item of a major type that does not look at the tag leaves it for the next item' % (fn['n'], t, cnt, leaks[0].line), None, fn['q'])
+    chk.require(n >= 8, '%s: only %d pending-tag tests found in basic_cbor_parser' % (rid, n))
+
 def run(chk, tier, only_rule=None):
     chk.explanation = EXPLANATION
     chk.not_decided = NOT_DECIDED
@@ -606,6 +666,7 @@ def run(chk, tier, only_rule=None):
     check_ubjson(chk, tier)
     check_bson(chk, tier)
     check_bson_size(chk, tier)
+    check_cbor_tag_flags(chk, tier)
     from . import c10
     c10.r10_7(chk, tier)     # a closer that does not give the depth back makes a flat, valid document hit the nesting limit
     from . import c02
